@@ -47,17 +47,62 @@ theorem listLength_follows_header (f : Form) (x : Cbor) (xs : List Cbor) (rest :
     listLength (enc (mkArr f (x :: xs)) ++ rest) = some (xs.length + 1) :=
   listLength_enc f x xs rest hv hd he
 
-/-- Sum-type decoders (`variantOf` = `DecodeIdFromList` + the type's switch,
-    table regenerated from the running code): the variant is the table entry of
-    the first element, in every header form. -/
-theorem variant_follows_tag (ty : String) (f : Form) (w : W) (k : Nat) (xs : List Cbor) (rest : Bytes)
+/-- Sum-type decoders (`variantOfInfo` = navigation to the tagged list +
+    `DecodeIdFromList` + the type's switch): wherever the tagged list sits in the
+    decoder's input (`e.path`: top level for scripts, certificates, …; nested for
+    the ledger failure reasons and the local-state-query leaves), the variant is
+    the table entry of the list's first element, in every header form. -/
+theorem variant_follows_tag (e : SumInfo) (T : Cbor) (f : Form) (w : W) (k : Nat) (xs : List Cbor)
+    (rest : Bytes) (hT : T.valid = true)
+    (hg : e.guards.all (guardOk T) = true)
+    (hnav : nav T e.path = some (mkArr f (.int false w k :: xs)))
     (hv : (mkArr f (.int false w k :: xs)).valid = true)
     (hd : depth (mkArr f (.int false w k :: xs)) ≤ maxNested) (hk : k ≤ maxInt)
     (he : elemsOk xs = true) :
-    variantOf GV.Gen.SumTypes.table ty true (enc (mkArr f (.int false w k :: xs)) ++ rest)
-      = lookup GV.Gen.SumTypes.table ty k := by
-  unfold variantOf
-  rw [decodeId_enc f w k xs rest hv hd hk he]
+    variantOfInfo e true (enc T ++ rest) = some (e.variant k) := by
+  unfold variantOfInfo subBytes
+  cases hp : e.path with
+  | nil =>
+    rw [hp] at hnav
+    simp only [nav, Option.some.injEq] at hnav
+    subst hnav
+    simp only
+    rw [decodeId_enc f w k xs rest hv hd hk he]
+  | cons i p =>
+    simp only
+    rw [decode_enc T hT rest]
+    rw [hp] at hnav
+    simp only [hg, ↓reduceIte, hnav, Option.map_some]
+    have := decodeId_enc f w k xs [] hv hd hk he
+    rw [List.append_nil] at this
+    rw [this]
+
+/-- …and this is what the fast-path-free reading of the tree gives (`variantSpec`
+    is the `spec` column of the driver). -/
+theorem variant_eq_spec (T : Cbor) (f : Form) (w : W) (k : Nat) (xs : List Cbor)
+    (rest : Bytes) (hT : T.valid = true) (e : SumInfo)
+    (hg : e.guards.all (guardOk T) = true)
+    (hnav : nav T e.path = some (mkArr f (.int false w k :: xs)))
+    (hv : (mkArr f (.int false w k :: xs)).valid = true) :
+    (match subBytes e (enc T ++ rest) with
+     | some sb => (tagOfTree sb).map e.variant
+     | none => none) = some (e.variant k) := by
+  unfold subBytes
+  cases hp : e.path with
+  | nil =>
+    rw [hp] at hnav
+    simp only [nav, Option.some.injEq] at hnav
+    subst hnav
+    simp only
+    rw [tagOfTree_enc f w k xs rest hv]; rfl
+  | cons i p =>
+    simp only
+    rw [decode_enc T hT rest]
+    rw [hp] at hnav
+    simp only [hg, ↓reduceIte, hnav, Option.map_some]
+    have := tagOfTree_enc f w k xs [] hv
+    rw [List.append_nil] at this
+    rw [this]; rfl
 
 /-- `DecodeById` selects the destination registered for the first element. -/
 theorem decodeById_follows_tag (known : Nat → Bool) (f : Form) (w : W) (k : Nat) (xs : List Cbor)
@@ -87,7 +132,7 @@ theorem old_not_full : ¬ C03_full (decodeIdFromListOld true) := by
 /-- In the regenerated table distinct tags select distinct variants (so "the
     variant named by the first element" determines the tag and vice versa). -/
 theorem table_tags_distinct :
-    ∀ e ∈ GV.Gen.SumTypes.table, (e.2.map (·.1)).Nodup ∧ (e.2.map (·.2)).Nodup := by
+    ∀ e ∈ GV.Gen.SumTypes.table, (e.tags.map (·.1)).Nodup ∧ (e.tags.map (·.2)).Nodup := by
   decide
 
 /-- Non-vacuity: hypotheses of the main theorem on a non-trivial value —
@@ -98,6 +143,13 @@ example : decodeIdFromList true
   decodeId_follows_tag (.defn .w8) .w2 4 [.str false .w0 [1, 2], .int false .w2 300] [0xaa]
     (by decide) (by decide) (by decide) (by decide)
 
-example : lookup GV.Gen.SumTypes.table "nativescript" 1 = some "NativeScriptAll" := by decide
+example : (findSum GV.Gen.SumTypes.table "nativescript").map (·.variant 1) = some (.lab "NativeScriptAll") := by
+  decide
+
+/-- Non-vacuity of the nested statement: a Conway UTXOW failure `[[6, [[0, [2, x]]]]]` whose inner
+    list has a 2-byte header: the navigation reaches the tagged list. -/
+example : nav (.arr .w0 [.arr .w0 [.int false .w0 6, .arr .w0 [.arr .w0 [.int false .w0 0,
+      mkArr (.defn .w1) [.int false .w0 2, .arr .w0 []]]]]]) [0, 1, 0, 1]
+    = some (mkArr (.defn .w1) [.int false .w0 2, .arr .w0 []]) := rfl
 
 end GV.Props.C03
